@@ -117,6 +117,17 @@ func (m *msi) getPendingRequestsToCore(id int) map[msiCommandRequest]*msiCommand
 	return requests
 }
 
+// hasPendingCommandToCore tells whether a snoop command on a line is still to
+// be executed by a core
+func (m *msi) hasPendingCommandToCore(id int, alignedAddr comp.AlignedAddress) bool {
+	for req := range m.commands {
+		if req.id == id && req.alignedAddr == alignedAddr {
+			return true
+		}
+	}
+	return false
+}
+
 // rLock is a lock for read
 // Workflows:
 // Pre-actions: pendings
@@ -124,6 +135,11 @@ func (m *msi) getPendingRequestsToCore(id int) map[msiCommandRequest]*msiCommand
 // Post-action: msiCommandInfo callback
 func (m *msi) rLock(id int, addrs []int32) (msiResponse, func(), *comp.Sem) {
 	alignedAddr := getAlignedMemoryAddress(addrs)
+	if m.hasPendingCommandToCore(id, alignedAddr) {
+		// A snoop command on this line is still to be executed by this core (its
+		// requester may have been flushed meanwhile): wait for it
+		return msiResponse{wait: true}, noop, nil
+	}
 	state := m.getState(id, addrs)
 	switch state {
 	case invalid:
@@ -182,6 +198,11 @@ func (m *msi) readRequest(id int, alignedAddr comp.AlignedAddress) []*msiCommand
 // Post-action: msiCommandInfo callback
 func (m *msi) lock(id int, addrs []int32) (msiResponse, func(), *comp.Sem) {
 	alignedAddr := getAlignedMemoryAddress(addrs)
+	if m.hasPendingCommandToCore(id, alignedAddr) {
+		// A snoop command on this line is still to be executed by this core (its
+		// requester may have been flushed meanwhile): wait for it
+		return msiResponse{wait: true}, noop, nil
+	}
 	state := m.getState(id, addrs)
 	switch state {
 	case invalid:
